@@ -170,3 +170,174 @@ pub fn ser_tree<'a>(root: &'a AstNode<'a>) -> String {
 pub fn kind_seq<'a>(root: &'a AstNode<'a>) -> Vec<&'static str> {
     root.descendants().map(|n| kind_name(&n.data.borrow().value)).collect()
 }
+
+// ---------------------------------------------------------------------------------------------
+// wire -> real tree
+
+use comrak::nodes::{
+    Ast, LineColumn, NodeAlert, NodeCode, NodeCodeBlock, NodeDescriptionItem, NodeFootnoteDefinition, NodeFootnoteReference,
+    NodeHeading, NodeHtmlBlock, NodeLink, NodeMath, NodeMultilineBlockQuote, NodeTable, NodeWikiLink, Sourcepos,
+};
+use comrak::Arena;
+
+fn ub(s: &str) -> Option<bool> {
+    match s {
+        "1" => Some(true),
+        "0" => Some(false),
+        _ => None,
+    }
+}
+fn us(s: &str) -> Option<String> {
+    String::from_utf8(crate::util::unhex(s)?).ok()
+}
+fn un(s: &str) -> Option<usize> {
+    s.parse().ok()
+}
+
+fn arity(k: &str) -> Option<usize> {
+    Some(match k {
+        "document" | "block_quote" | "description_list" | "description_term" | "description_details" | "paragraph"
+        | "thematic_break" | "table_cell" | "softbreak" | "linebreak" | "emph" | "strong" | "strikethrough"
+        | "superscript" | "escaped" | "underline" | "subscript" | "spoiler" => 0,
+        "frontmatter" | "table_row" | "text" | "html_inline" | "raw" | "wikilink" | "escaped_tag" => 1,
+        "list" | "item" => 8,
+        "description_item" => 3,
+        "code_block" => 6,
+        "html_block" | "heading" | "footnote_definition" | "taskitem" | "code" | "link" | "image" | "multiline_block_quote" => 2,
+        "table" => 4,
+        "footnote_reference" | "math" => 3,
+        "alert" => 6,
+        _ => return None,
+    })
+}
+
+fn nlist_of(f: &[&str]) -> Option<NodeList> {
+    Some(NodeList {
+        list_type: if un(f[0])? == 0 { ListType::Bullet } else { ListType::Ordered },
+        marker_offset: un(f[1])?,
+        padding: un(f[2])?,
+        start: un(f[3])?,
+        delimiter: if un(f[4])? == 0 { ListDelimType::Period } else { ListDelimType::Paren },
+        bullet_char: un(f[5])? as u8,
+        tight: ub(f[6])?,
+        is_task_list: ub(f[7])?,
+    })
+}
+
+fn value_of(k: &str, f: &[&str]) -> Option<NodeValue> {
+    Some(match k {
+        "document" => NodeValue::Document,
+        "frontmatter" => NodeValue::FrontMatter(us(f[0])?),
+        "block_quote" => NodeValue::BlockQuote,
+        "list" => NodeValue::List(nlist_of(f)?),
+        "item" => NodeValue::Item(nlist_of(f)?),
+        "description_list" => NodeValue::DescriptionList,
+        "description_item" => NodeValue::DescriptionItem(NodeDescriptionItem { marker_offset: un(f[0])?, padding: un(f[1])?, tight: ub(f[2])? }),
+        "description_term" => NodeValue::DescriptionTerm,
+        "description_details" => NodeValue::DescriptionDetails,
+        "code_block" => NodeValue::CodeBlock(NodeCodeBlock {
+            fenced: ub(f[0])?,
+            fence_char: un(f[1])? as u8,
+            fence_length: un(f[2])?,
+            fence_offset: un(f[3])?,
+            info: us(f[4])?,
+            literal: us(f[5])?,
+        }),
+        "html_block" => NodeValue::HtmlBlock(NodeHtmlBlock { block_type: un(f[0])? as u8, literal: us(f[1])? }),
+        "paragraph" => NodeValue::Paragraph,
+        "heading" => NodeValue::Heading(NodeHeading { level: un(f[0])? as u8, setext: ub(f[1])? }),
+        "thematic_break" => NodeValue::ThematicBreak,
+        "footnote_definition" => NodeValue::FootnoteDefinition(NodeFootnoteDefinition { name: us(f[0])?, total_references: un(f[1])? as u32 }),
+        "table" => {
+            let al = if f[3] == "-" { vec![] } else {
+                f[3].chars().map(|c| match c {
+                    'l' => TableAlignment::Left,
+                    'c' => TableAlignment::Center,
+                    'r' => TableAlignment::Right,
+                    _ => TableAlignment::None,
+                }).collect()
+            };
+            NodeValue::Table(NodeTable { alignments: al, num_columns: un(f[0])?, num_rows: un(f[1])?, num_nonempty_cells: un(f[2])? })
+        }
+        "table_row" => NodeValue::TableRow(ub(f[0])?),
+        "table_cell" => NodeValue::TableCell,
+        "text" => NodeValue::Text(us(f[0])?),
+        "taskitem" => NodeValue::TaskItem(if ub(f[0])? { us(f[1])?.chars().next() } else { None }),
+        "softbreak" => NodeValue::SoftBreak,
+        "linebreak" => NodeValue::LineBreak,
+        "code" => NodeValue::Code(NodeCode { num_backticks: un(f[0])?, literal: us(f[1])? }),
+        "html_inline" => NodeValue::HtmlInline(us(f[0])?),
+        "raw" => NodeValue::Raw(us(f[0])?),
+        "emph" => NodeValue::Emph,
+        "strong" => NodeValue::Strong,
+        "strikethrough" => NodeValue::Strikethrough,
+        "superscript" => NodeValue::Superscript,
+        "link" => NodeValue::Link(NodeLink { url: us(f[0])?, title: us(f[1])? }),
+        "image" => NodeValue::Image(NodeLink { url: us(f[0])?, title: us(f[1])? }),
+        "footnote_reference" => NodeValue::FootnoteReference(NodeFootnoteReference { name: us(f[0])?, ref_num: un(f[1])? as u32, ix: un(f[2])? as u32 }),
+        "math" => NodeValue::Math(NodeMath { dollar_math: ub(f[0])?, display_math: ub(f[1])?, literal: us(f[2])? }),
+        "multiline_block_quote" => NodeValue::MultilineBlockQuote(NodeMultilineBlockQuote { fence_length: un(f[0])?, fence_offset: un(f[1])? }),
+        "escaped" => NodeValue::Escaped,
+        "wikilink" => NodeValue::WikiLink(NodeWikiLink { url: us(f[0])? }),
+        "underline" => NodeValue::Underline,
+        "subscript" => NodeValue::Subscript,
+        "spoiler" => NodeValue::SpoileredText,
+        "escaped_tag" => NodeValue::EscapedTag(us(f[0])?),
+        "alert" => NodeValue::Alert(NodeAlert {
+            alert_type: match un(f[0])? {
+                0 => AlertType::Note,
+                1 => AlertType::Tip,
+                2 => AlertType::Important,
+                3 => AlertType::Warning,
+                _ => AlertType::Caution,
+            },
+            title: if ub(f[1])? { Some(us(f[2])?) } else { None },
+            multiline: ub(f[3])?,
+            fence_length: un(f[4])?,
+            fence_offset: un(f[5])?,
+        }),
+        _ => return None,
+    })
+}
+
+/// Builds a real comrak tree from its wire form (the inverse of `ser_tree`).
+pub fn build_tree<'a>(arena: &'a Arena<AstNode<'a>>, wire: &str) -> Option<&'a AstNode<'a>> {
+    let toks: Vec<&str> = wire.split(' ').filter(|t| !t.is_empty()).collect();
+    let mut i = 0;
+    let mut stack: Vec<&'a AstNode<'a>> = vec![];
+    let mut root: Option<&'a AstNode<'a>> = None;
+    while i < toks.len() {
+        match toks[i] {
+            "E" => {
+                stack.pop()?;
+                i += 1;
+            }
+            "N" => {
+                let k = *toks.get(i + 1)?;
+                let n = arity(k)?;
+                if i + 6 + n > toks.len() {
+                    return None;
+                }
+                let sp = Sourcepos {
+                    start: LineColumn { line: un(toks[i + 2])?, column: un(toks[i + 3])? },
+                    end: LineColumn { line: un(toks[i + 4])?, column: un(toks[i + 5])? },
+                };
+                let v = value_of(k, &toks[i + 6..i + 6 + n])?;
+                let mut ast = Ast::new(v, sp.start);
+                ast.sourcepos = sp;
+                let node = arena.alloc(AstNode::from(ast));
+                if let Some(p) = stack.last() {
+                    p.append(node);
+                } else if root.is_none() {
+                    root = Some(node);
+                } else {
+                    return None;
+                }
+                stack.push(node);
+                i += 6 + n;
+            }
+            _ => return None,
+        }
+    }
+    if stack.is_empty() { root } else { None }
+}
